@@ -1197,6 +1197,7 @@ package main
 
 //@ emits CopyTo when Kind == "Primitive" && OneOf && !HasZero
 //@ ensures [C07,C20] imp(hasT && !prevOK && !factive, o.Null)
+//@ ensures [C07,C20] imp(hasT && !prevOK && factive, !o.Null)
 
 // ---- nested objects
 //@ emits CopyTo when Kind == "Object"
